@@ -69,13 +69,13 @@ type pathState struct {
 	inconclusive    []string
 
 	// virtual environment
-	files      map[string]value // path -> string value
+	vfs        []vfile
 	fileOrder  []string
 	writes     []fsWrite
 	stdout     []value // string values
 	stderr     []string
 	goPanic    bool
-	reads      []string
+	reads      []value
 	outputs    []string
 	outTexts   []string
 	sample     *PathSample
@@ -396,4 +396,50 @@ func (ps *pathState) choose(name string, n int) int {
 	ps.choices = append(ps.choices, fmt.Sprintf("%s=%d", name, o))
 	ps.choiceVals[name] = o
 	return o
+}
+
+// vfile is one entry of the per-path virtual file system; names may be
+// symbolic (lookups compare and fork).
+type vfile struct {
+	name value
+	data value
+}
+
+// vfsFind returns the index of the file called name, or -1; may fork.
+func (i *interpreter) vfsFind(name value) int {
+	for k := len(i.ps.vfs) - 1; k >= 0; k-- {
+		c := i.strEq(name, i.ps.vfs[k].name)
+		if c.isFalse() {
+			continue
+		}
+		if i.ps.decide(c) {
+			return k
+		}
+	}
+	return -1
+}
+
+func (i *interpreter) vfsSet(name, data value) {
+	if k := i.vfsFind(name); k >= 0 {
+		i.ps.vfs[k].data = data
+		return
+	}
+	i.ps.vfs = append(i.ps.vfs, vfile{name, data})
+}
+
+// flagged reports whether a (possibly symbolic) name equals one of the
+// concrete names in set; may fork.
+func (i *interpreter) flagged(set map[string]bool, name value) bool {
+	if set["*"] {
+		return true
+	}
+	if s, ok := name.(string); ok {
+		return set[s]
+	}
+	for n := range set {
+		if i.ps.decide(i.strEq(name, n)) {
+			return true
+		}
+	}
+	return false
 }
